@@ -320,6 +320,10 @@ def r6_layout(ctx):
                               "(e.g. an individual requested with no age: an empty array is expected for it)", construct="request filtered")
             elif _re.fullmatch(r"\$1 = \{(%\d+): [^{}]*\b(%\d+)\b[^{}]* for \1, \2 in \$1\.items\(\)\}", ln):
                 ctx.ok("C09.R6", f, f.node, "the request is re-mapped entry by entry (every requested ID kept)", construct="request re-mapped")
+            elif any(("round(" in l2 or ".round(" in l2) and "$1" in l2 for l2 in L0):
+                r_ = next(l2 for l2 in L0 if ("round(" in l2 or ".round(" in l2) and "$1" in l2)
+                ctx.violation("C09.R6", f, f.node, f"the requested ages are rounded before the estimate (`{r_[:80]}`): the trajectories are computed and indexed at other ages than the requested "
+                              "ones, and a requested (ID, age) row that is no longer found comes back as NaN", construct="requested ages rounded")
             else:
                 ctx.unknown("C09.R6", f, f.node, f"the request mapping is re-bound by `{ln[:90]}`", construct="request re-bound")
     b2 = unify(L, ["for ($1.items(), (?id, ?t))", "?est[?id] = $0.compute_individual_trajectory(?t, $2[?id])..."])
